@@ -11,6 +11,7 @@ import FlacModel.Model.Writers
 import FlacModel.Model.ByteFront
 import FlacModel.Model.FixedPick
 import FlacModel.Model.RateEnc
+import FlacModel.Model.Wasted
 import FlacModel.Model.Md5
 import FlacModel.Model.Finalize
 import Driver.Gen
@@ -202,9 +203,26 @@ def opEncframe (f : Fields) (impl : Fields) (implHead : String) (profile : Profi
              if pick.1 == o && pick.2 == vals then "ok" else s!"order{o}-modelled{pick.1}"
            | _ => "ok")
         | _ => "ok"
+    -- wasted bits (`Model/Wasted.lean`, the subject of `C01.wasted_shift_lossless`): for independently coded channels the number of wasted
+    -- bits of every subframe is the one the regenerated fold determines from that channel (correspondence, not a verdict)
+    let wastedpick : String :=
+      match parseFrame decLayout true none bytes with
+      | .error _ => "ok"
+      | .ok pr =>
+        match pr.frame.hdr.assign with
+        | .indep _ =>
+          let bad := (List.zip pr.frame.subs (deinterleave ch pcm)).find? fun (sub, chan) =>
+            match encWasted chan with
+            | .shift w => sub.wasted != w
+            | .none => sub.wasted != 0
+            | .allZero => sub.wasted != 0
+          (match bad with
+           | some (sub, chan) => s!"wasted{sub.wasted}-modelled" ++ (match encWasted chan with | .shift w => toString w | _ => "0")
+           | none => "ok")
+        | _ => "ok"
     -- the crate-decoder model on the same bytes (ties Model/Decode to the spec on real output)
     let m := match decodeFrame profile none bytes with
-      | .ok d => s!"ok dec={joinInts (interleave d.channels)} fixedpick={fixedpick}"
+      | .ok d => s!"ok dec={joinInts (interleave d.channels)} fixedpick={fixedpick} wastedpick={wastedpick}"
       | .error e => failStr e
     s!"{m} @@ {verdict}"
 
